@@ -29,7 +29,9 @@ def write(ctx, wall_s, n_unmatched, n_known, bykey):
     ev = dict(property_id=ctx.pid, tier=ctx.tier, seed=int(ctx.seed), level=ctx.level, coverage=cov,
               assumptions=ctx.assumptions, wall_s=round(float(wall_s), 3), violations=int(n_unmatched))
     evdir = os.path.join(ROOT, "evidence")
-    if os.path.realpath(os.environ.get("VERIF_REPO", "/repo")) != "/repo":
+    if os.environ.get("VERIF_EVIDENCE_DIR"):
+        evdir = os.environ["VERIF_EVIDENCE_DIR"]          # explicit override (trial runs that must not touch the committed evidence)
+    elif os.path.realpath(os.environ.get("VERIF_REPO", "/repo")) != "/repo":
         # a run against a scratch copy (mutation driver) must never overwrite the evidence of the real tree
         evdir = os.environ.get("VERIF_EVIDENCE_DIR", "/tmp/desolver-verif-evidence")
     path = os.path.join(evdir, "%s.json" % ctx.pid)
